@@ -22,10 +22,13 @@ G == INSTANCE EventGrammar
 Traces == JsonDeserialize(IOEnv.TRACE_FILE)
 VARIABLE tid
 
-LineOf(t, pos) == Cardinality({j \in DOMAIN t.breaks : t.breaks[j] <= pos}) - 1
-ColOf(t, pos)  == LET ls == t.breaks[LineOf(t, pos) + 1]
-                  IN  (pos - ls) - Cardinality({j \in DOMAIN t.boms : ls <= t.boms[j] /\ t.boms[j] < pos})
-PosOk(t, i, l, c) == ~t.exact \/ (l = LineOf(t, i) /\ c = ColOf(t, i))
+\* line l (0-based) is the one with breaks[l+1] <= pos < breaks[l+2]; breaks is strictly increasing and starts with 0, so this
+\* l is unique and equals  Cardinality({j : breaks[j] <= pos}) - 1  (the count of line starts at or before pos) - checked, not counted
+IsLineOf(t, pos, l) == /\ l >= 0 /\ l + 1 <= Len(t.breaks) /\ t.breaks[l + 1] <= pos
+                       /\ (l + 2 <= Len(t.breaks) => pos < t.breaks[l + 2])
+ColAt(t, pos, l)    == LET ls == t.breaks[l + 1]
+                       IN  (pos - ls) - Cardinality({j \in DOMAIN t.boms : ls <= t.boms[j] /\ t.boms[j] < pos})
+PosOk(t, i, l, c) == ~t.exact \/ (IsLineOf(t, i, l) /\ c = ColAt(t, i, l))
 
 RECURSIVE Run(_, _, _, _)
 Run(t, i, g, prev) ==
